@@ -138,6 +138,7 @@ def check_close(name, lhs, rhs, tol, pc=(), bound=1.0, timeout_ms=10000):
     exact = []
     atoms = set()
     tolq = z3.Q(*Fr(tol).as_integer_ratio())
+    tolf, boundq, n_interval, max_amp = Fr(tol), Fr(bound), 0, F0
     for i, (a, b) in enumerate(zip(L, R)):
         d = a - b
         if d.n.iszero():
@@ -146,6 +147,17 @@ def check_close(name, lhs, rhs, tol, pc=(), bound=1.0, timeout_ms=10000):
             raise Inconclusive("tolerance obligation with symbolic denominator")
         atoms |= d.atoms()
         for part in (0, 1):
+            # interval pre-filter: over the monomial box the maximum of |c0 + sum c_m y_m| is |c0| + sum |c_m| bound^deg (exact for
+            # this abstraction); components whose bound is within tol need no variables in the solver query
+            amp = F0
+            for m, c in d.n.t.items():
+                if c[part] != 0:
+                    amp += abs(c[part]) * (boundq ** sum(e for v, e in m) if m else 1)
+            if amp <= tolf:
+                if amp > 0:
+                    n_interval += 1
+                    max_amp = max(max_amp, amp)
+                continue
             acc = []
             for m, c in d.n.t.items():
                 if c[part] == 0:
@@ -163,6 +175,10 @@ def check_close(name, lhs, rhs, tol, pc=(), bound=1.0, timeout_ms=10000):
                 lits.append(z3.Or(e > tolq, e < -tolq))
                 ex = d.n.z3part(part)
                 exact.append(z3.Or(ex > tolq, ex < -tolq))
+    if not lits and n_interval:
+        rs, _ = _check([z3.Q(max_amp.numerator, max_amp.denominator) > tolq], 1000)
+        return Verdict("unsat", name, f"{n_interval} component bounds hold by the triangle inequality over the monomial box (|atom|<={bound}), "
+                       f"largest bound {float(max_amp):.3e} <= {tol}", shape="tolerance")
     if not lits:
         rs, _ = _check([z3.RealVal(0) > tolq], 1000)
         STATS["trivial"] += 1
